@@ -207,6 +207,7 @@ def k_fc(repo):
 
 
 def k_build10(repo):
+    match_fn(repo + AGG, "AggregateBase.build", t3.T_BUILDWRAP)
     env = match_projection(repo + AGG, "AggregateBase._build", _rel_build10, T_BUILD10)
     ab = {"L_a": "a", "L_b": "b"}
     d = [("g_bd_d1", "(a : Z) : Z", zhole(env, "H_d1", {"L_a": "a"})), ("g_bd_d2", "(a : Z) : Z", zhole(env, "H_d2", {"L_a": "a"})),
@@ -352,6 +353,7 @@ def static(repo):
             "aggregate_base.py:AggregateBase.elsignatures", "aggregate_base.py:AggregateBase._add_excitation",
             "aggregate_base.py:AggregateBase._get_exindx", "aggregate_base.py:AggregateBase.transition_dipole", "aggregate_base.py:AggregateBase.get_dipole",
             "aggregate_base.py:AggregateBase.coupling (vibronic branch, full=False)",
+            "aggregate_base.py:AggregateBase.build (internal-units context around _build)",
             "aggregate_base.py:AggregateBase._build (statements touching HH, DD, FC, HamOp, TrDMOp, FCf, all_states; Ntot; Nb loop)",
             "aggregate_base.py:AggregateBase.total_number_of_states", "aggregate_base.py:AggregateBase.number_of_states_in_band"]
     return txt, what
